@@ -84,6 +84,33 @@ RectInter(a, b) == CrossSum(Shells(a), Shells(b)) - CrossSum(Shells(a), Holes(b)
 RectIoU(a, b) == LET i == RectInter(a, b) IN <<i, RectArea(a) + RectArea(b) - i>>
 RectPair(ga, gb) == ga.type \in AreaKinds /\ gb.type \in AreaKinds /\ Rectilinear(ga) /\ Rectilinear(gb)
 
+(* Lines whose buffered time extent is not a closed form (oblique end caps, bends): it is still bracketed.  The round *)
+(* end caps are inscribed 32-gons: in the time direction they reach between b(1 - 1/128) and b beyond the first / last  *)
+(* vertex (the shortfall is at most 1 - cos(pi/32) = 0.48 %).  A mitred bend of at most 90 degrees (in the buffer's own  *)
+(* units: time / tb, frequency / fb) sticks out at most sqrt(2) b from its vertex; when every bend is such and lies at  *)
+(* least tb inside the line's time extent, nothing reaches beyond the end caps.  Extents in units of 1/128 tick:        *)
+LineParts(g) == IF g.type = "LineString" THEN <<g.coordinates>> ELSE g.coordinates
+BendsOk(g, tb, fb) ==
+    LET x == TimeExtent(g, FMAXT) IN
+    \A p \in DOMAIN LineParts(g) : LET s == LineParts(g)[p] IN
+        \A k \in 2..(Len(s) - 1) :
+            /\ (s[k][1] - s[k - 1][1]) * (s[k + 1][1] - s[k][1]) * fb * fb
+                  + (s[k][2] - s[k - 1][2]) * (s[k + 1][2] - s[k][2]) * tb * tb >= 0
+            /\ x[1] + tb <= s[k][1] /\ s[k][1] <= x[2] - tb
+Bracketed(g, tb, fb) == g.type \in LineKinds /\ ~ClosedExtent(g) /\ tb > 0 /\ fb > 0 /\ BendsOk(g, tb, fb)
+\* <<largest, smallest>> possible prepared extent, 1/128 ticks; exact kinds: both equal
+PExt128(g, tb, fb, r) ==
+    LET e == PExt(g, tb, r)  big == <<128 * e[1], 128 * e[2]>> IN
+    IF Bracketed(g, tb, fb) THEN <<big, <<IF e[1] = 0 THEN 0 ELSE big[1] + tb, big[2] - tb>>>> ELSE <<big, big>>
+Len1(x) == x[2] - x[1]
+\* v lies between the smallest and the largest intersection-over-union the bracketed extents allow
+BracketIoU(v, A, B) ==
+    LET ihi == Inter1(A[1], B[1])  ilo == Inter1(A[2], B[2])
+        uhi == Len1(A[1]) + Len1(B[1]) - ilo  ulo == Len1(A[2]) + Len1(B[2]) - ihi
+    IN  \/ uhi > 32000 \/ ulo <= 0
+        \/ /\ v.r = "" /\ v.l[1] \in {0, 1} /\ v.l[2] <= 1
+           /\ LMulMag(v.l, uhi)[2] >= ilo - 1 /\ LMulMag(v.l, ulo)[2] <= ihi
+
 TimeOnlyPair(k1, k2) == k1 \in TimeKinds \/ k2 \in TimeKinds
 BoxPair(k1, k2)      == k1 = "BoundingBox" /\ k2 = "BoundingBox"
 
@@ -140,6 +167,9 @@ Vals(run) == {run.v12, run.v21, run.v11, run.v22} \cup {run.sh[k].v : k \in DOMA
 ExactTimeOnly(ga, gb, tb, v) ==
     (TimeOnlyPair(ga.type, gb.type) /\ ClosedExtent(ga) /\ ClosedExtent(gb))
         => \E r \in Readings : EqRat(v, TimeIoU(PExt(ga, tb, r), PExt(gb, tb, r)))
+BracketTimeOnly(ga, gb, tb, fb, v) ==
+    (TimeOnlyPair(ga.type, gb.type) /\ (Bracketed(ga, tb, fb) \/ Bracketed(gb, tb, fb)) /\ ClosedExtent(ga) # ClosedExtent(gb))
+        => \E r \in Readings : BracketIoU(v, PExt128(ga, tb, fb, r), PExt128(gb, tb, fb, r))
 ExactBox(ga, gb, v) ==
     BoxPair(ga.type, gb.type) => EqRat(v, BoxIoU(ga.coordinates, gb.coordinates))
 ExactRect(ga, gb, v) == RectPair(ga, gb) => EqRat(v, RectIoU(ga, gb))
@@ -190,7 +220,7 @@ HoldsRun(cl, o, run) ==
                             LET c == Calls(o, run)[k] IN ExactRect(c[1], c[2], c[3])
       [] cl = "TimeOnly" ->
             /\ IsLat(o) => \A k \in 1..Len(Calls(o, run)) :
-                            LET c == Calls(o, run)[k] IN ExactTimeOnly(c[1], c[2], tb, c[3])
+                            LET c == Calls(o, run)[k] IN ExactTimeOnly(c[1], c[2], tb, c[3]) /\ BracketTimeOnly(c[1], c[2], tb, fb, c[3])
             /\ TimeOnlyPair(K1(o), K2(o)) =>
                  /\ \A k \in DOMAIN run.sh : \E r \in Readings :
                         EqObservedIoU(run.sh[k].v, RecExt(K1(o), run.sh[k].e1, r), RecExt(K2(o), run.sh[k].e2, r))
